@@ -33,7 +33,11 @@ CONSTANTS
     MaxSpans,
     IncomingKinds,  \* subset of {"both", "trace", "span"}: Frame::push of incoming trace id + span id,
                     \* of a trace id alone, of a span id alone ({}: none)
-    WithLazy        \* BOOLEAN: offer async-fn spans (begin happens at the first poll)
+    WithLazy,       \* BOOLEAN: offer async-fn spans (begin happens at the first poll)
+    CtxForms        \* the forms in which the runtime's context is used: "value" (C), "ref" (&C),
+                    \* "option" (Option<C>), "box" (Box<C>), "arc" (Arc<C>), "dyn" (Box<dyn ErasedCtxt +
+                    \* Send + Sync>, through dyn ErasedCtxt's dispatch table), "ambient" (the type-erased
+                    \* runtime emit::setup()..init_slot(..) installs)
 
 Spans == 1..MaxSpans
 INC == MaxSpans + 1           \* logical context "the incoming trace id and span id"
@@ -44,6 +48,23 @@ IN_TR == 2 * MaxSpans + 1     \* incoming trace id
 IN_SP == 2 * MaxSpans + 2     \* incoming span id
 DrawTrace(i) == 2 * i - 1
 DrawSpan(i) == 2 * i
+
+(***************************************************************************)
+(* Context forms.  The statement does not depend on the form, so level A is *)
+(* the same for all of them and every form has to refine it.  Level B: each *)
+(* wrapper forwards every operation of Ctxt to the wrapped context          *)
+(* unchanged (core/src/ctxt.rs: impl Ctxt for &C / Option<C> / Box<C> /     *)
+(* Arc<C> / dyn ErasedCtxt [+ Send + Sync], DispatchCtxt) - in particular   *)
+(* open_disabled stays open_disabled (a rejected span's frame must not      *)
+(* become a pushed one, nor a push of nothing where the wrapped context     *)
+(* distinguishes the two).  Every program of this specification is replayed *)
+(* through the forms in rotation (the program number picks the form).       *)
+(***************************************************************************)
+AllCtxForms == {"value", "ref", "option", "box", "arc", "dyn", "ambient"}
+OpenKinds == {"push", "root", "disabled"}
+FormOpen(form, kind) == kind        \* what the wrapped context is asked to open
+ASSUME CtxForms \subseteq AllCtxForms /\ CtxForms # {}
+ASSUME \A form \in CtxForms, kind \in OpenKinds : FormOpen(form, kind) = kind
 
 VARIABLES
     sp,       \* span i: [st, en, ids (level B: what new_child computed), encl (level A)]
